@@ -230,3 +230,59 @@ def dest_words_case(rng):
                                              tx.calls_str([(n, {}) for n in trans]), srcarg], got)]
     return Case("cli-dest-words:%s->%s" % (F, G), {"src_format": F, "dest_format": G, "src_words": swords, "dest_words": dwords,
                                                      "trans": trans, "text": text, "err": err[-300:] if rc else ""}, lines, nontrivial=True)
+
+
+PIPES = [["root_attach"], ["negra_mark_heads"], ["mark_heads_by_rules"], ["root_attach", "mark_heads_by_rules", "boyd_split", "raising"],
+         ["negra_mark_heads", "boyd_split"], ["root_attach", "negra_mark_heads", "boyd_split", "raising", "binarize"],
+         ["negra_mark_heads", "binarize"], ["mark_heads_by_rules", "binarize"], ["add_topnode"], ["punctuation_verylow"],
+         ["punctuation_root"], ["punctuation_symetrify"], ["punctuation_delete"], ["collapse_unary_chains"],
+         ["collapse_unary_chains", "uncollapse_unary_chains"], ["filter_by_length"], ["punctuation_delete", "filter_by_length"],
+         ["ptb_delete_traces"], ["filter_by_length", "negra_mark_heads", "binarize"], ["binarize"], ["raising"]]
+
+
+def cmd_case(rng):
+    """the whole `transform` command from its words: --trans names --params words --src-opts words --dest-opts words
+    against TT.runCmd"""
+    F, ts, text, opts, srcarg = make_source(rng)
+    names = list(rng.choice(PIPES))
+    if rng.random() < 0.2:
+        names = names + list(rng.choice(PIPES))
+    pw = []
+    if "mark_heads_by_rules" in names or rng.random() < 0.1:
+        pw.append(rng.choice(["mark_heads_preset:negra", "mark_heads_preset:negra", "mark_heads_preset:ptb", "mark_heads_preset:tiger",
+                              "mark_heads_preset:7", "mark_heads_preset", "mark_heads_rulefile:", "mark_heads_rulefile:x.rules"]))
+        if rng.random() < 0.1:
+            pw.append("mark_heads_rulefile:")
+    if "filter_by_length" in names:
+        if rng.random() < 0.9:
+            pw.append("filteroperator:" + rng.choice(["lt", "gt", "eq", "le", "lt", "gt"]))
+        if rng.random() < 0.9:
+            pw.append("filtervalue:" + rng.choice(["0", "1", "3", "4", "5", "007", "12"]))
+    if "binarize" in names and rng.random() < 0.4:
+        pw.append(rng.choice(["bare_bin_labels", "bare_bin_labels:0"]))
+    if "punctuation_symetrify" in names and rng.random() < 0.5:
+        pw.append("relc:" + rng.choice(["PRELS", "cc", "a"]))
+    if "ptb_delete_traces" in names:
+        for w in rng.sample(["keepall", "keepcoindex", "keep:*T*", "keep:*T*,*U*", "slash", "slash:*T*"], rng.randint(0, 2)):
+            pw.append(w)
+    for _ in range(rng.choice([0, 0, 1])):
+        pw.append(rng.choice(["quiet", "foo:1", "terminalfile:none"]))
+    rng.shuffle(pw)
+    swords = spell_words(rng, opts)
+    G = "export" if F != "brackets" or rng.random() < 0.5 else "brackets"
+    dwords = rng.choice([[], [], ["gf"], ["export_four"] if G == "export" else ["gf"]])
+    with cli.Scratch() as sc:
+        src = sc.write("src." + F, text)
+        argv = ["transform", src, sc.path("dest"), "--src-format", F, "--dest-format", G, "--trans"] + names
+        if pw:
+            argv += ["--params"] + pw
+        if swords:
+            argv += ["--src-opts"] + swords
+        if dwords:
+            argv += ["--dest-opts"] + dwords
+        rc, _, err = cli.run_cli(argv)
+        got = proto.enc_s(sc.read("dest")) if rc == 0 else cli_error(err)
+    e = lambda ws: ",".join(proto.enc_s(w) for w in ws)
+    lines = [Line("corr", "convert_cmd", [F, e(swords), G, e(dwords), "n", e(names), e(pw), srcarg], got)]
+    return Case("cli-cmd:%s" % F, {"src_format": F, "dest_format": G, "trans": names, "params": pw, "src_words": swords, "dest_words": dwords,
+                                   "text": text, "result": got[:30], "err": err[-300:] if rc else ""}, lines, nontrivial=len(names) > 1)
